@@ -79,6 +79,10 @@ def make_scenarios(ctx, count, nops):
             elif r < p_add + 0.42:
                 secs = rng.choice([0, 1, 1, 2, 29, 30, 31, 59, 60, 61, 61, 62, 119, 120, 121, 200]) \
                     if style == "expiry" or rng.random() < 0.5 else rng.randint(0, 5)
+                if rng.random() < 0.04:
+                    # a very long time without a tick (the daemon was stopped, the machine slept): idle times that no longer
+                    # fit 32 bits of milliseconds, 31 / 32 bits of seconds
+                    secs = rng.choice([65536, 65597, 4294967, 4294968, 4295000, 4295027, 4295028, 8589936, 2 ** 31, 2 ** 32 + 30, 2 ** 33])
                 ms = secs * 1000 + (rng.choice([0, 1, 499, 500, 999]) if subsec else 0)
                 s.add("ADV %d" % ms)
                 ops.append(("ADV", ms))
